@@ -13,7 +13,8 @@ every option combination against the Lean host (`./check C05`, harness/bind-nati
 The value round trips themselves are corollaries of the generic C01/C02 theorems instantiated at the
 Rust configuration.  Where the generic theorem exists (flat lowering of memory-free types) the
 corollary is unconditional; where it does not exist yet the corollary is stated `_partial` with the
-missing generic statement as a *named hypothesis* (no axiom is introduced).
+missing generic statement as a *named hypothesis* (no axiom is introduced).  For memory-free types both
+directions are unconditional (`rust_export_roundtrip_memfree`, `rust_import_roundtrip_memfree`).
 -/
 namespace Witverif.Props.C05
 open Witverif.Abi Witverif.Abi.RustProfile
@@ -172,6 +173,22 @@ theorem rust_import_roundtrip_memfree (p : Nat) (hp : p = 4 ∨ p = 8) (realloc 
     ∃ cs, evalList { p, inputs := [.v v] } [] es = some (cs.map MV.c) ∧ Spec.liftFlat p m t cs = some v :=
   ⟨(Spec.lowerFlat p t v {}).1, (rust_lower_flat_is_spec p hp realloc t v hm hv ss es h).2,
    liftFlat_lowerFlat p m v t {} hm hv⟩
+
+/-- **Host → guest, memory-free types — unconditional.**  The host lowers `v` per the spec; whatever
+operands carry those core values into the generated lifting code (flat parameters, loads), the
+expression it builds (Rust configuration, both pointer widths, any nesting level and block frames)
+evaluates to `v`: the user function receives the value the host sent.
+(`C01.lift_flat_correct` ∘ `liftFlat_lowerFlat`; flags of more than 32 members are in scope of the
+model `lift`, their *rendering* is `rust_flags_lift`.) -/
+theorem rust_export_roundtrip_memfree (p : Nat) (hp : p = 4 ∨ p = 8) (realloc : Bool) (t : Ty) (v : Val)
+    (hm : memFree t = true) (hv : Spec.hasTy t v = true) (st : Spec.St)
+    (lvl : Nat) (xs : List Expr) (env : Env) (m : Spec.Mem) (e : Expr) (hp' : env.p = p)
+    (hden : Denotes env m xs (Spec.lowerFlat p t v st).1) (h : lift (rustCfg realloc) lvl t xs = .ok e) :
+    ∀ fr, eval (env.withFrames fr) m e = some (.v v) := by
+  intro fr
+  rw [C01.lift_flat_correct p hp (rustCfg realloc) t hm lvl xs env m _ e hp' (lowerFlat_wf p v t st hm hv).2 hden h fr,
+    liftFlat_lowerFlat p m v t st hm hv]
+  rfl
 
 /-- the spec's own round trip, memory-free types (so `SpecRoundtripFlat` is only open for types that
 use linear memory) -/
